@@ -49,7 +49,102 @@ def run(ctx, rep):
         distinct(db, rep)
         determinism(db, rep)
         count(db, rep)
+        verbatim(db, rep)
     rep.note('configs', ctx.stone_configs())
+
+
+# methods that change what a vector holds (length, order or elements) through `&mut self`
+MUTATORS = {'truncate', 'pop', 'remove', 'swap_remove', 'drain', 'clear', 'retain', 'retain_mut', 'dedup', 'dedup_by',
+            'dedup_by_key', 'sort', 'sort_unstable', 'sort_by', 'sort_by_key', 'reverse', 'rotate_left', 'rotate_right',
+            'split_off', 'resize', 'resize_with', 'fill', 'swap', 'push', 'insert', 'extend', 'extend_from_slice', 'append',
+            'set_len', 'shrink_to', 'iter_mut', 'as_mut_slice', 'index_mut', 'get_mut', 'first_mut', 'last_mut'}
+
+
+def back_roots(fn, fl, l):
+    """alias classes of the storage a reference/view local goes back to: through `&x`, moves, casts and the view
+    conversions (deref, as_slice, as_ref, borrow ...)"""
+    VIEW = {'deref', 'deref_mut', 'as_slice', 'as_mut_slice', 'as_ref', 'as_mut', 'borrow', 'borrow_mut'}
+    seen, st = set(), [l]
+    while st:
+        x = st.pop()
+        if x in seen:
+            continue
+        seen.add(x)
+        for b in fn.blocks:
+            if b.get('cleanup'):
+                continue
+            for s_ in b['stmts']:
+                if s_['k'] != 'assign' or s_['place']['l'] != x or s_['place']['p']:
+                    continue
+                rv = s_['rv']
+                if rv['k'] == 'ref' and all(e == '*' for e in rv['place']['p']):
+                    st.append(rv['place']['l'])
+                elif rv['k'] in ('use', 'cast'):
+                    o = op_place(rv['a'])
+                    if o is not None and all(e == '*' for e in o['p']):
+                        st.append(o['l'])
+            u = b['term']
+            if u['k'] == 'call' and u['dest']['l'] == x and not u['dest']['p'] and u['f'].get('name') in VIEW and u.get('args'):
+                o = op_place(u['args'][0])
+                if o is not None:
+                    st.append(o['l'])
+    return {fl.find(y) for y in seen}
+
+
+def verbatim(db, rep):
+    """A prover message is absorbed as sent: when the operand of an absorb is (a copy of) a proof field, no call between
+    its definition and the absorb may change it through `&mut` (truncate/pop/retain/sort/push ...). The order and count
+    rules see that *something* derived from the message is absorbed once; this one sees that it is the message itself,
+    so a data-dependent trim or normalisation in front of the absorb is a violation (two different messages, one
+    transcript state)."""
+    import dataflow as df
+    cfg = db.config
+    R = db.reach([VERIFY])
+    n = 0
+    for p in sorted(R):
+        fn = db.fns.get(p)
+        if fn is None or not fn.has_mir or p.startswith(TRANSCRIPT):
+            continue
+        sites = [(bi, t) for bi, t in fn.calls() if set(db.resolve(t['f'], {})) & {T_ABSORB1, T_ABSORBV, T_ABSORB64}]
+        if not sites:
+            continue
+        fl = df.Flow(db, fn)
+        for k, (bi, t) in enumerate(sites):
+            if len(t.get('args', [])) < 2:
+                continue
+            lv = fl.operand_leaves(t['args'][1])
+            if not any(df.is_path_leaf(x) for x in lv):
+                continue       # a value computed by the verifier (hash, constant): not a prover message
+            n += 1
+            pl = op_place(t['args'][1])
+            roots = back_roots(fn, fl, pl['l']) if pl is not None else set()
+            bad = []
+            for bj, u in fn.calls():
+                if u['f'].get('name') not in MUTATORS or not u.get('args'):
+                    continue
+                a0 = op_place(u['args'][0])
+                if a0 is None:
+                    continue
+                r0 = back_roots(fn, fl, a0['l'])
+                if not (r0 & roots):
+                    continue
+                # only a mutation that can still be followed by the absorb matters
+                seen, st = set(), [bj]
+                while st:
+                    x = st.pop()
+                    if x in seen:
+                        continue
+                    seen.add(x)
+                    st += list(fn.succ(x))
+                if bi in seen and bj != bi:
+                    bad.append((u['f'].get('name'), u['line']))
+            rep.ob('C08.verbatim', f'{p}|absorb#{k}', not bad,
+                   f'{p.split("::")[-1]}: the absorbed prover message ({label(lv)}) ' +
+                   ('reaches the absorb unmodified' if not bad else
+                    f'is changed in place before it is absorbed: {bad[0][0]} at line {bad[0][1]} -- the transcript no longer '
+                    f'binds the message as sent'), fn.loc(t['line']), cfg)
+    # counted on the pinned tree: absorbs of prover messages outside the transcript module
+    rep.floor('C08.verbatim', 'absorb sites of prover messages in Reach(verify)', n, 4)
 
 
 def has(leaves, pred):
